@@ -28,8 +28,18 @@ theorem allBin_spec (p : Nat → Bool) (d lo : Nat) (h : allBin p d lo = true) :
     · exact ih lo h.1 n h1 hn
     · exact ih (lo + 2 ^ d) h.2 n (by omega) (by rw [Nat.pow_succ] at h2; omega)
 
+theorem nbeq {a b : Nat} : Nat.beq a b = true ↔ a = b :=
+  ⟨Nat.eq_of_beq_eq_true, fun h => h ▸ Nat.beq_refl a⟩
+
+theorem nbeq_zero_false {a : Nat} (h : a ≠ 0) : Nat.beq a 0 = false := by
+  cases a with
+  | zero => exact absurd rfl h
+  | succ n => rfl
+
 /-- entry `i` of a table packed 8 bits per entry -/
 def lkp (T i : Nat) : Nat := Nat.land (Nat.shiftRight T (Nat.mul 8 i)) 255
+
+theorem lkp_le' (T i : Nat) : lkp T i ≤ 255 := Nat.and_le_right
 
 /-- `logMultiply` on the packed tables, primitive operations only -/
 def mulP (a b : Nat) : Nat :=
@@ -56,88 +66,121 @@ def mulCase (n : Nat) : Bool :=
 
 /-! ### finite facts about the extracted tables -/
 
+/-- a list of octets as one number, entry `i` in bits `8i .. 8i+7` (one linear pass) -/
+def packL : List Nat → Nat
+  | [] => 0
+  | x :: xs => Nat.add x (Nat.mul 256 (packL xs))
+
+def octets : List Nat → Bool
+  | [] => true
+  | x :: xs => Nat.ble x 255 && octets xs
+
+theorem lkp_packL (l : List Nat) (h : octets l = true) (i : Nat) : lkp (packL l) i = l.getD i 0 := by
+  induction l generalizing i with
+  | nil =>
+    simp only [packL, lkp, List.getD_nil]
+    show (0 >>> (8 * i)) &&& 255 = 0
+    simp
+  | cons x xs ih =>
+    simp only [octets, Bool.and_eq_true, Nat.ble_eq] at h
+    have hx : x < 256 := by omega
+    cases i with
+    | zero =>
+      simp only [List.getD_cons_zero]
+      show ((x + 256 * packL xs) >>> (8 * 0)) &&& 255 = x
+      rw [Nat.mul_zero, Nat.shiftRight_zero, show (255 : Nat) = 2 ^ 8 - 1 from rfl,
+        Nat.and_two_pow_sub_one_eq_mod]
+      omega
+    | succ i =>
+      simp only [List.getD_cons_succ]
+      rw [← ih h.2 i]
+      show ((x + 256 * packL xs) >>> (8 * (i + 1))) &&& 255 = (packL xs >>> (8 * i)) &&& 255
+      rw [show 8 * (i + 1) = 8 + 8 * i by omega, Nat.shiftRight_add, Nat.shiftRight_eq_div_pow _ 8]
+      congr 2
+      omega
+
 /-- the packed tables are the lists -/
 def packedOk : Bool :=
-  allBin (fun i => Nat.beq (lkp rsExpPacked i) (expAt i)) 9 0 &&
-  allBin (fun a => Nat.beq (lkp rsLogPacked a) (logAt a)) 8 0
+  octets rsExp && octets rsLog && Nat.beq (packL rsExp) rsExpPacked && Nat.beq (packL rsLog) rsLogPacked
 
 theorem packed_ok : packedOk = true := by decide +kernel
 
+theorem lkp_exp (i : Nat) : lkp rsExpPacked i = expAt i := by
+  have hp := packed_ok
+  simp only [packedOk, Bool.and_eq_true, nbeq] at hp
+  rw [← hp.1.2, lkp_packL _ hp.1.1.1]; rfl
+
+theorem lkp_log (a : Nat) : lkp rsLogPacked a = logAt a := by
+  have hp := packed_ok
+  simp only [packedOk, Bool.and_eq_true, nbeq] at hp
+  rw [← hp.2, lkp_packL _ hp.1.1.2]; rfl
+
 /-- sizes; logarithms of non-zero octets are `≤ 254` and inverted by the exponent table; the
 exponent table has period 255 on the indices the code can reach (`≤ 508`), holds non-zero octets
-there, and is inverted by the logarithm table on one period -/
+there, and is inverted by the logarithm table on one period (evaluated on the packed tables) -/
 def tablesOk : Bool :=
   Nat.beq rsExp.length 512 && Nat.beq rsLog.length 256 &&
-  allBin (fun a => Nat.beq a 0 || (Nat.ble (logAt a) 254 && Nat.beq (expAt (logAt a)) a)) 8 0 &&
+  allBin (fun a => Nat.beq a 0 ||
+    (Nat.ble (lkp rsLogPacked a) 254 && Nat.beq (lkp rsExpPacked (lkp rsLogPacked a)) a)) 8 0 &&
   allBin (fun k => Nat.beq k 255 ||
-    (Nat.beq (expAt (k + 255)) (expAt k) && Nat.ble 1 (expAt k) && Nat.ble (expAt k) 255 &&
-      Nat.beq (logAt (expAt k)) k)) 8 0
+    (Nat.beq (lkp rsExpPacked (Nat.add k 255)) (lkp rsExpPacked k) && Nat.ble 1 (lkp rsExpPacked k) &&
+      Nat.beq (lkp rsLogPacked (lkp rsExpPacked k)) k)) 8 0
 
 theorem tables_ok : tablesOk = true := by decide +kernel
 
 theorem exp_length : rsExp.length = 512 := by
   have h := tables_ok
-  simp only [tablesOk, Bool.and_eq_true, Nat.beq_eq_true_eq] at h
+  simp only [tablesOk, Bool.and_eq_true, nbeq] at h
   exact h.1.1.1
 
 theorem log_length : rsLog.length = 256 := by
   have h := tables_ok
-  simp only [tablesOk, Bool.and_eq_true, Nat.beq_eq_true_eq] at h
+  simp only [tablesOk, Bool.and_eq_true, nbeq] at h
   exact h.1.1.2
 
 theorem log_facts (a : Nat) (h0 : a ≠ 0) (ha : a < 256) : logAt a ≤ 254 ∧ expAt (logAt a) = a := by
   have h := tables_ok
   simp only [tablesOk, Bool.and_eq_true] at h
   have := allBin_spec _ _ _ h.1.2 a (Nat.zero_le _) (by simpa using ha)
-  simp only [Bool.or_eq_true, Bool.and_eq_true, Nat.beq_eq_true_eq, Nat.ble_eq] at this
+  simp only [Bool.or_eq_true, Bool.and_eq_true, nbeq, Nat.ble_eq, lkp_exp, lkp_log] at this
   rcases this with h | h
   · exact absurd h h0
   · exact h
 
+theorem exp_lt (k : Nat) : expAt k < 256 := by
+  have := lkp_le' rsExpPacked k
+  rw [lkp_exp] at this; omega
+
 theorem exp_facts (k : Nat) (hk : k < 255) :
-    expAt (k + 255) = expAt k ∧ 1 ≤ expAt k ∧ expAt k < 256 ∧ logAt (expAt k) = k := by
+    expAt (k + 255) = expAt k ∧ 1 ≤ expAt k ∧ logAt (expAt k) = k := by
   have h := tables_ok
   simp only [tablesOk, Bool.and_eq_true] at h
   have := allBin_spec _ _ _ h.2 k (Nat.zero_le _) (by simp; omega)
-  simp only [Bool.or_eq_true, Bool.and_eq_true, Nat.beq_eq_true_eq, Nat.ble_eq] at this
+  simp only [Bool.or_eq_true, Bool.and_eq_true, nbeq, Nat.ble_eq, lkp_exp, lkp_log] at this
   rcases this with h | h
   · omega
-  · exact ⟨h.1.1.1, h.1.1.2, by omega, h.2⟩
+  · exact ⟨h.1.1, h.1.2, h.2⟩
 
-theorem lkp_le (T i : Nat) : lkp T i ≤ 255 := Nat.and_le_right
-
-theorem lkp_exp (i : Nat) (h : i < 512) : lkp rsExpPacked i = expAt i := by
-  have hp := packed_ok
-  simp only [packedOk, Bool.and_eq_true] at hp
-  have := allBin_spec _ _ _ hp.1 i (Nat.zero_le _) (by simpa using h)
-  simpa using this
-
-theorem lkp_log (a : Nat) (h : a < 256) : lkp rsLogPacked a = logAt a := by
-  have hp := packed_ok
-  simp only [packedOk, Bool.and_eq_true] at hp
-  have := allBin_spec _ _ _ hp.2 a (Nat.zero_le _) (by simpa using h)
-  simpa using this
-
-theorem mulP_eq (a b : Nat) (ha : a < 256) (hb : b < 256) : mulP a b = logMultiply a b := by
+theorem mulP_eq (a b : Nat) : mulP a b = logMultiply a b := by
   unfold mulP logMultiply
   by_cases h : a = 0 ∨ b = 0
   · rcases h with h | h <;> simp [h]
   · have h' : (Nat.beq a 0 || Nat.beq b 0) = false := by
       simp only [not_or] at h
-      simp [h.1]
+      rw [nbeq_zero_false h.1, nbeq_zero_false h.2]; rfl
     rw [h', if_neg h, cond_false]
-    have h1 := lkp_le rsLogPacked a
-    have h2 := lkp_le rsLogPacked b
-    rw [lkp_exp _ (by show lkp rsLogPacked a + lkp rsLogPacked b < 512; omega), lkp_log a ha, lkp_log b hb]
+    have h1 := lkp_le' rsLogPacked a
+    have h2 := lkp_le' rsLogPacked b
+    rw [lkp_exp, lkp_log a, lkp_log b]
     rfl
 
 /-- what one enumerated case says -/
-theorem mulCase_spec (a b : Nat) (ha : a < 256) (hb : b < 256) (h : mulCase (256 * a + b) = true) :
+theorem mulCase_spec (a b : Nat) (_ha : a < 256) (hb : b < 256) (h : mulCase (256 * a + b) = true) :
     logMultiply a b = clmulMod fieldPoly a b := by
   have h1 : Nat.div (256 * a + b) 256 = a := by show (256 * a + b) / 256 = a; omega
   have h2 : Nat.mod (256 * a + b) 256 = b := by show (256 * a + b) % 256 = b; omega
   simp only [mulCase, h1, h2] at h
-  rw [← mulP_eq a b ha hb, Nat.eq_of_beq_eq_true h, clmulMod_eq_U]
+  rw [← mulP_eq a b, Nat.eq_of_beq_eq_true h, clmulMod_eq_U]
   rfl
 
 end Dmr.Rs
